@@ -278,6 +278,123 @@ theorem no_hooks_untyped (check : T → V → Bool) (keys : List String) (level 
           · exact absurd h (hnc _ rfl)
         · intro h; exact Or.inl ((hmiss _ rfl).mpr h)
 
+/-- **validate_warnings_exact** (round 10; `no_hooks_untyped` lifted from fresh outputs to every state the
+    hooks can leave behind). For *any* output Vars (typed, untyped, concrete or not, any hook results
+    behind them), any input types and any `TypeWarningLevel`, `Node.validate_types` raises exactly:
+    * one "type is missing" warning for each untyped output — at every level above NONE;
+    * one "was not concrete" warning for each output whose type is not concrete — at level OUTPUTS (3) and
+      above always, at level INITIAL (2) only when every input is typed and concrete, never below;
+    and nothing else (in particular never a "dropping" warning, and never an error: the function is total). -/
+theorem validate_warnings_exact (level : Nat) (concrete : T → Bool) (inTypes : List (Option T))
+    (outs : List (OutState T V)) (w : Warn) :
+    w ∈ validateWarnings level concrete inTypes outs ↔
+      (0 < level ∧ ∃ o ∈ outs, o.type = none ∧ w = Warn.missing o.key) ∨
+      ((3 ≤ level ∨ (level = 2 ∧ ∀ it ∈ inTypes, ∃ t', it = some t' ∧ concrete t' = true)) ∧
+        ∃ o ∈ outs, ∃ t, o.type = some t ∧ concrete t = false ∧ w = Warn.notConcrete o.key) := by
+  have hm : w ∈ outs.filterMap (fun o => if o.type.isNone then some (Warn.missing o.key) else none) ↔
+      ∃ o ∈ outs, o.type = none ∧ w = Warn.missing o.key := by
+    simp only [List.mem_filterMap]
+    constructor
+    · rintro ⟨o, ho, h⟩
+      cases ht : o.type with
+      | none => simp [ht] at h; exact ⟨o, ho, ht, h.symm⟩
+      | some t => simp [ht] at h
+    · rintro ⟨o, ho, ht, rfl⟩
+      exact ⟨o, ho, by simp [ht]⟩
+  have hn : ∀ g : OutState T V → Option Warn,
+      (∀ o, g o = match o.type with
+        | some t => if concrete t then none else some (Warn.notConcrete o.key)
+        | none => none) →
+      (w ∈ outs.filterMap g ↔
+        ∃ o ∈ outs, ∃ t, o.type = some t ∧ concrete t = false ∧ w = Warn.notConcrete o.key) := by
+    intro g hg
+    simp only [List.mem_filterMap]
+    constructor
+    · rintro ⟨o, ho, h⟩
+      rw [hg o] at h
+      cases ht : o.type with
+      | none => simp [ht] at h
+      | some t =>
+        simp only [ht] at h
+        by_cases hc : concrete t = true
+        · simp [hc] at h
+        · simp [hc] at h
+          exact ⟨o, ho, t, ht, by simpa using hc, h.symm⟩
+    · rintro ⟨o, ho, t, ht, hc, rfl⟩
+      exact ⟨o, ho, by rw [hg o]; simp [ht, hc]⟩
+  have hall : ∀ f : Option T → Bool, (∀ x, f x = true ↔ ∃ t', x = some t' ∧ concrete t' = true) →
+      (inTypes.all f = true ↔ ∀ it ∈ inTypes, ∃ t', it = some t' ∧ concrete t' = true) := by
+    intro f hf
+    simp only [List.all_eq_true]
+    exact forall_congr' fun it => imp_congr Iff.rfl (hf it)
+  by_cases h0 : level = 0
+  · simp [validateWarnings, h0]
+  · simp only [validateWarnings]
+    rw [if_neg h0]
+    by_cases h1 : level ≤ 1
+    · rw [if_pos h1, hm]
+      constructor
+      · intro h; exact Or.inl ⟨by omega, h⟩
+      · rintro (⟨_, h⟩ | ⟨hl, _⟩)
+        · exact h
+        · omega
+    · rw [if_neg h1]
+      split
+      · rename_i hc
+        simp only [Bool.and_eq_true, Bool.not_eq_true', decide_eq_true_eq] at hc
+        obtain ⟨hAf, h2⟩ := hc
+        have hA' : ¬ ∀ it ∈ inTypes, ∃ t', it = some t' ∧ concrete t' = true := by
+          have key : ∀ f : Option T → Bool, inTypes.all f = false →
+              (∀ x, f x = true ↔ ∃ t', x = some t' ∧ concrete t' = true) →
+              ¬ ∀ it ∈ inTypes, ∃ t', it = some t' ∧ concrete t' = true := by
+            intro f hf hx h
+            have := (hall f hx).2 h
+            rw [this] at hf
+            cases hf
+          exact key _ hAf (fun x => by cases x <;> simp)
+        rw [hm]
+        constructor
+        · intro h; exact Or.inl ⟨by omega, h⟩
+        · rintro (⟨_, h⟩ | ⟨hl, _⟩)
+          · exact h
+          · rcases hl with hl | ⟨_, hl⟩
+            · omega
+            · exact absurd hl hA'
+      · rename_i hc
+        simp only [Bool.and_eq_true, Bool.not_eq_true', decide_eq_true_eq, not_and] at hc
+        have hdis : 3 ≤ level ∨ (level = 2 ∧ ∀ it ∈ inTypes, ∃ t', it = some t' ∧ concrete t' = true) := by
+          by_cases hA : ∀ it ∈ inTypes, ∃ t', it = some t' ∧ concrete t' = true
+          · by_cases h3 : 3 ≤ level
+            · exact Or.inl h3
+            · exact Or.inr ⟨by omega, hA⟩
+          · have key : ∀ f : Option T → Bool, (inTypes.all f = false → ¬ level ≤ 2) →
+                (∀ x, f x = true ↔ ∃ t', x = some t' ∧ concrete t' = true) → ¬ level ≤ 2 := by
+              intro f hf hx
+              apply hf
+              have := (not_congr (hall f hx)).2 hA
+              simpa using this
+            have := key _ hc (fun x => by cases x <;> simp)
+            exact Or.inl (by omega)
+        rw [List.mem_append, hm, hn _ (fun o => by cases o with | mk k t v => cases t <;> rfl)]
+        constructor
+        · rintro (h | h)
+          · exact Or.inl ⟨by omega, h⟩
+          · exact Or.inr ⟨hdis, h⟩
+        · rintro (⟨_, h⟩ | ⟨_, h⟩)
+          · exact Or.inl h
+          · exact Or.inr h
+
+/-- a typed-but-symbolic output next to an untyped one, inputs concrete: level 1 reports only the missing
+    type, level 2 both; with an untyped input level 2 falls back to the missing type, level 3 does not -/
+example :
+    let outs : List (OutState Nat Nat) := [⟨"a", some 7, none⟩, ⟨"b", none, none⟩]
+    let conc : Nat → Bool := fun t => t < 5
+    validateWarnings 1 conc [some 1] outs = [Warn.missing "b"] ∧
+    validateWarnings 2 conc [some 1] outs = [Warn.missing "b", Warn.notConcrete "a"] ∧
+    validateWarnings 2 conc [some 1, none] outs = [Warn.missing "b"] ∧
+    validateWarnings 3 conc [some 1, none] outs = [Warn.missing "b", Warn.notConcrete "a"] ∧
+    validateWarnings 0 conc [some 1] outs = [] := by decide
+
 /-- every dropped value is reported, and only those -/
 theorem dropped_iff (check : T → V → Bool) (thook : List (String × T)) (vhook : List (String × V))
     (outs : List (OutState T V)) (w : Warn) :
